@@ -661,6 +661,15 @@ def replay_case(case):
     if "twin" in case:
         return run_twin(case)
     use_tier(case.get("tier"))
+    if not case["chain"]:
+        gtype, coords = POOL_BY_ID[case["geom"]]
+        try:
+            mkgeom(gtype, coords)
+        except Exception as e:  # noqa
+            out = Out(case)
+            out.fail("pool_constructible", "%s: %s" % (type(e).__name__, str(e)[:200]), "valid geometry accepted",
+                     {"geom": case["geom"], "type": gtype, "kind": "pool_rejected"})
+            return out
     chain = [(float(tb), float(fb)) for tb, fb in case["chain"]]
     g = rebuild(case)
     out, _, _ = eval_state(case["geom"], chain, g)
